@@ -21,6 +21,9 @@ pub enum Case {
     Str { spec: Spec, bytes: Hex, how: String },
     /// a near-valid string from the C07 grammar and all its single-bit flips and truncations
     Mutations { spec: Spec, seed: u64 },
+    /// the public vector helpers of `prio::codec` (decode_u8/u16/u32/fixlen_items) on a generated
+    /// buffer with the cursor at every position from 0 to past the end, for generated lengths
+    Helpers { bytes: Hex, seed: u64 },
 }
 
 /// Specs whose encoding starts with header fields (tags, counts, lengths): 3-byte enumeration.
@@ -87,14 +90,71 @@ fn header_extremes() -> Vec<(Spec, Vec<u8>, String)> {
 /// some alias a real identifier modulo 2^8, 2^16 or 2^32.
 pub const WILD_IDS: [usize; 20] = [2, 3, 254, 255, 256, 257, 258, 511, 512, 513, 65535, 65536, 65537, 1 << 32, (1 << 32) + 1, usize::MAX - 255, usize::MAX - 254, usize::MAX, 1 << 63, (1 << 63) + 1];
 
+/// Encoding of an aggregation parameter with `n` prefixes of `plen` bytes (level 8·plen − 1).
+/// twist 0: strictly increasing (canonical, must be accepted); 1: the last two equal; 2: the last
+/// two exchanged; 3: one byte short.
+pub fn big_agg_param(plen: usize, n: u32, twist: u8) -> Vec<u8> {
+    let level = (8 * plen - 1) as u16;
+    let mut out = Vec::with_capacity(6 + plen * n as usize);
+    out.extend_from_slice(&level.to_be_bytes());
+    out.extend_from_slice(&n.to_be_bytes());
+    let step: u64 = if plen >= 3 { 37 } else { 3 };
+    let val = |k: u64| -> Vec<u8> { (k * step + 1).to_be_bytes()[8 - plen.min(8)..].to_vec() };
+    for k in 0..n as u64 {
+        let k = match (twist, n as u64 - k) {
+            (1, 1) => k - 1,
+            (2, 1) => k - 1,
+            (2, 2) => k + 1,
+            _ => k,
+        };
+        let mut b = val(k);
+        while b.len() < plen {
+            b.insert(0, 0);
+        }
+        out.extend_from_slice(&b);
+    }
+    if twist == 3 {
+        out.pop();
+    }
+    out
+}
+
 fn alloc_bound(spec: &Spec, len: usize) -> usize {
     (64 << 10) + 64 * len + 8 * nominal_len(spec)
 }
 
+/// CPU time consumed by the calling thread (not wall time: insensitive to machine load).
+pub fn thread_cpu_ns() -> u64 {
+    let mut ts = libc::timespec { tv_sec: 0, tv_nsec: 0 };
+    // SAFETY: plain syscall writing into a local
+    unsafe { libc::clock_gettime(libc::CLOCK_THREAD_CPUTIME_ID, &mut ts) };
+    ts.tv_sec as u64 * 1_000_000_000 + ts.tv_nsec as u64
+}
+
+/// "Terminates promptly": thread CPU time allowed for decoding `len` bytes. The decoders are linear
+/// and take well under 100 ns per byte in this build; the bound leaves more than two orders of
+/// magnitude (2 s + 20 µs per byte), and an excess only counts if two repetitions exceed it too.
+fn cpu_bound_ns(len: usize) -> u64 {
+    2_000_000_000 + 20_000 * len as u64
+}
+
 /// Decode once under the monitors. Returns a violation (sig, what) if any.
 fn monitored(prep: &Prepared, spec: &Spec, bytes: &[u8]) -> Option<(String, String)> {
+    let t0 = thread_cpu_ns();
     let (rt, st) = track_alloc(|| prep(bytes, Mode::DecodeOnly));
+    let spent = thread_cpu_ns() - t0;
     let fam = spec.family();
+    if spent > cpu_bound_ns(bytes.len()) {
+        let mut all = vec![spent];
+        for _ in 0..2 {
+            let t = thread_cpu_ns();
+            let _ = prep(bytes, Mode::DecodeOnly);
+            all.push(thread_cpu_ns() - t);
+        }
+        if all.iter().all(|t| *t > cpu_bound_ns(bytes.len())) {
+            return Some((format!("{fam}-cpu-time"), format!("{spec:?}: decoding {} bytes took {:?} ms of thread CPU time in three runs; the bound for a prompt decoder is {} ms (2 s + 20 µs per byte)", bytes.len(), all.iter().map(|t| t / 1_000_000).collect::<Vec<_>>(), cpu_bound_ns(bytes.len()) / 1_000_000)));
+        }
+    }
     if let Some(p) = &rt.panic {
         let loc = p.split_once(": ").map(|x| x.1).unwrap_or(p);
         return Some((format!("{fam}-{}", panic_sig(loc)), format!("{spec:?}: decoder panicked on {} ({} bytes): {p}", hex(&bytes[..bytes.len().min(64)]), bytes.len())));
@@ -106,11 +166,67 @@ fn monitored(prep: &Prepared, spec: &Spec, bytes: &[u8]) -> Option<(String, Stri
     None
 }
 
+/// The vector helpers of `prio::codec` with the cursor anywhere, including past the end of the
+/// buffer (a position the cursor type allows and earlier reads or seeks can leave behind).
+fn run_helpers(buf: &[u8], seed: u64) -> Outcome {
+    use prio::codec::{decode_fixlen_items, decode_u16_items, decode_u32_items, decode_u8_items};
+    use prio::field::Field64;
+    use std::io::Cursor;
+    let mut obs = Obs::new();
+    obs.label("family:codec-helpers");
+    let mut n = 0u64;
+    let mut positions: Vec<u64> = (0..=buf.len() as u64 + 9).collect();
+    positions.extend_from_slice(&[u32::MAX as u64, u64::MAX / 2, u64::MAX - 1, u64::MAX]);
+    let lengths: Vec<usize> = {
+        let mut l: Vec<usize> = (0..=10).collect();
+        l.extend_from_slice(&[buf.len(), buf.len() + 1, (seed % 64) as usize, usize::MAX, usize::MAX - 1, usize::MAX / 2 + 1, 1 << 32]);
+        l
+    };
+    for &pos in &positions {
+        macro_rules! probe {
+            ($what:expr, $call:expr) => {{
+                n += 1;
+                let mut c = Cursor::new(buf);
+                c.set_position(pos);
+                let (r, st) = track_alloc(|| guard(|| $call(&mut c).map(|v: Vec<_>| v.len())));
+                match r {
+                    Err(p) => {
+                        obs.fail(format!("codec-helper-{}", panic_sig(&p)), format!("{} on a {}-byte buffer with the cursor at {pos} panicked: {p}", $what, buf.len()));
+                        obs.evals = n;
+                        return obs.finish();
+                    }
+                    Ok(Ok(k)) if pos as usize > buf.len() && k > 0 => {
+                        obs.fail("codec-helper-reads-past-end", format!("{} with the cursor at {pos} (past the end of {} bytes) decoded {k} items", $what, buf.len()));
+                        obs.evals = n;
+                        return obs.finish();
+                    }
+                    _ => {}
+                }
+                if st.peak > (64 << 10) + 64 * buf.len() {
+                    obs.fail("codec-helper-allocation", format!("{} on a {}-byte buffer (cursor {pos}) allocated {} bytes", $what, buf.len(), st.peak));
+                    obs.evals = n;
+                    return obs.finish();
+                }
+            }};
+        }
+        probe!("decode_u8_items::<u8>", |c: &mut Cursor<&[u8]>| decode_u8_items::<(), u8>(&(), c));
+        probe!("decode_u16_items::<u16>", |c: &mut Cursor<&[u8]>| decode_u16_items::<(), u16>(&(), c));
+        probe!("decode_u32_items::<Field64>", |c: &mut Cursor<&[u8]>| decode_u32_items::<(), Field64>(&(), c));
+        for &len in &lengths {
+            probe!(format!("decode_fixlen_items::<u8>(length {len})"), |c: &mut Cursor<&[u8]>| decode_fixlen_items::<(), u8>(len, &(), c));
+            probe!(format!("decode_fixlen_items::<u64>(length {len})"), |c: &mut Cursor<&[u8]>| decode_fixlen_items::<(), u64>(len, &(), c));
+        }
+    }
+    obs.nt();
+    obs.evals = n;
+    obs.finish()
+}
+
 impl Check for C08 {
     type Case = Case;
     const ID: &'static str = "C08";
     fn rule(&self) -> String {
-        "every (type, parameter) of a fixed table × every byte string of length ≤ 2 (≤ 3 for header-bearing types in the thorough tier), enumerated; header fields (level, counts, u32 length prefixes, tags) at {0,1,…,0x7F..,0x80..,0xFF..−1,0xFF..} × body lengths around the exact one, enumerated; generated: near-valid strings from the C07 grammar over generated parameters, each with all single-bit flips and all truncations, spliced strings, and near-valid strings decoded under aggregator identifiers that do not exist (2…2^63+1, incl. values aliasing a real identifier modulo 2^8/2^16/2^32). Monitors: no panic (overflow checks on), thread-local peak allocation and largest single request ≤ 64 KiB + 64·len + 8·(nominal encoding size for the parameter), per-case watchdog. Non-trivial = non-empty string; enumerated strings are distinct by construction, generated base strings by hash; the bit-flip/truncation mutants derived from a base string are executed (evaluations) but conservatively NOT counted in distinct_nontrivial".into()
+        "every (type, parameter) of a fixed table × every byte string of length ≤ 2 (≤ 3 for header-bearing types in the thorough tier), enumerated; header fields (level, counts, u32 length prefixes, tags) at {0,1,…,0x7F..,0x80..,0xFF..−1,0xFF..} × body lengths around the exact one, enumerated; generated: near-valid strings from the C07 grammar over generated parameters, each with all single-bit flips and all truncations, spliced strings, and near-valid strings decoded under aggregator identifiers that do not exist (2…2^63+1, incl. values aliasing a real identifier modulo 2^8/2^16/2^32). also: well-formed and almost well-formed encodings of 40 KB – 1.6 MB (aggregation parameters with up to 100 000 prefixes, field vectors, ping-pong messages), and the public vector helpers of prio::codec with the cursor at every position from 0 to past the end. Monitors: no panic (overflow checks on), thread CPU time ≤ 2 s + 20 µs per input byte (confirmed by two repetitions), thread-local peak allocation and largest single request ≤ 64 KiB + 64·len + 8·(nominal encoding size for the parameter), per-case watchdog. Non-trivial = non-empty string; enumerated strings are distinct by construction, generated base strings by hash; the bit-flip/truncation mutants derived from a base string are executed (evaluations) but conservatively NOT counted in distinct_nontrivial".into()
     }
     fn assumptions(&self) -> Vec<String> {
         vec!["allocation is measured with a counting global allocator on the decoding thread; requests above 2 GiB are refused so that an attacker-sized allocation aborts the (supervised) process deterministically".into()]
@@ -128,6 +244,7 @@ impl Check for C08 {
                 Case::Str { spec, bytes: Hex(bytes), how: "splice".into() }
             }),
             2 => (spec_strategy(), proptest::collection::vec(any::<u8>(), 0..200)).prop_map(|(spec, bytes)| Case::Str { spec, bytes: Hex(bytes), how: "random".into() }),
+            1 => (proptest::collection::vec(any::<u8>(), 0..48), any::<u64>()).prop_map(|(bytes, seed)| Case::Helpers { bytes: Hex(bytes), seed }),
             // decoding parameters outside the instance: aggregator identifiers that do not exist,
             // including ones that alias a real identifier in a narrower integer type; the string is
             // a canonical (or near-valid) encoding for the identifier's low bit
@@ -202,16 +319,53 @@ impl Check for C08 {
         ))
     }
     fn builtin_corpus(&self) -> Vec<Case> {
-        vec![
+        let mut v = vec![
             // DESIGN.md §5 #3: level 0xFFFF (fixed)
             Case::Str { spec: Spec::PopAggParam, bytes: Hex(vec![0xff, 0xff, 0, 0, 0, 1, 0]), how: "level 0xFFFF, one prefix, one body byte".into() },
             Case::Str { spec: Spec::PopAggParam, bytes: Hex(vec![0xff, 0xff, 0xff, 0xff, 0xff, 0xff]), how: "level 0xFFFF, count 0xFFFFFFFF".into() },
-        ]
+        ];
+        // large well-formed (and almost well-formed) encodings: a decoder whose work is not linear
+        // in the input only shows on long inputs that it does not refuse early
+        for (plen, n) in [(3usize, 65_536u32), (2, 20_000), (4, 100_000), (8, 30_000)] {
+            for twist in 0..4u8 {
+                v.push(Case::Str { spec: Spec::PopAggParam, bytes: Hex(big_agg_param(plen, n, twist)), how: format!("large aggregation parameter: {n} prefixes of {plen} bytes, variant {twist}") });
+            }
+        }
+        for (bits, level, n) in [(30usize, 19usize, 50_000usize), (17, 16, 40_000)] {
+            let spec = Spec::PopFieldVecByParam { bits, level, n };
+            let esz = if level == bits - 1 { 32 } else { 8 };
+            let mut bytes = vec![0u8; n * esz];
+            for (i, b) in bytes.iter_mut().enumerate() {
+                *b = if i % esz == esz - 1 { 0 } else { (i * 31 % 251) as u8 };
+            }
+            v.push(Case::Str { spec: spec.clone(), bytes: Hex(bytes.clone()), how: "large field vector (canonical)".into() });
+            bytes.pop();
+            v.push(Case::Str { spec, bytes: Hex(bytes), how: "large field vector (one byte short)".into() });
+        }
+        {
+            let payload = |n: usize, salt: u8| -> Vec<u8> { (0..n).map(|i| (i as u8).wrapping_mul(37) ^ salt).collect() };
+            let mut m = vec![1u8];
+            for (n, salt) in [(700_000usize, 1u8), (900_000, 2)] {
+                m.extend_from_slice(&(n as u32).to_be_bytes());
+                m.extend_from_slice(&payload(n, salt));
+            }
+            v.push(Case::Str { spec: Spec::PingPongMessage, bytes: Hex(m.clone()), how: "large ping-pong Continue message".into() });
+            m.truncate(m.len() - 1);
+            v.push(Case::Str { spec: Spec::PingPongMessage, bytes: Hex(m), how: "large ping-pong Continue message (one byte short)".into() });
+        }
+        for seed in 0..6u64 {
+            v.push(Case::Helpers { bytes: Hex(crate::util::expand(seed, 77, 40)), seed });
+        }
+        v
     }
     fn run(&self, case: &Case) -> Outcome {
         let mut obs = Obs::new();
+        if let Case::Helpers { bytes, seed } = case {
+            return run_helpers(&bytes.0, *seed);
+        }
         let spec = match case {
             Case::ShortBlock { spec, .. } | Case::ShortBlock3 { spec, .. } | Case::Str { spec, .. } | Case::Mutations { spec, .. } => spec,
+            Case::Helpers { .. } => unreachable!(),
         };
         obs.label(format!("family:{}", spec.family()));
         let prep = match prepare(spec) {
@@ -270,6 +424,7 @@ impl Check for C08 {
                 obs.label(format!("str:{}", how.split(' ').next().unwrap_or("")));
                 try_one(&bytes.0, 1, &mut obs);
             }
+            Case::Helpers { .. } => unreachable!(),
             Case::Mutations { seed, .. } => {
                 obs.label("mutations");
                 let base = build(spec, *seed, 4).bytes;
